@@ -552,6 +552,9 @@ def run_l2(run_seed: int, cfg: dict) -> L2Result:
         res.flag("L2:sink-argument-mutated-after-write")
     for u in unhandled:
         if isinstance(u, BaseException) and not isinstance(u, (ConnectionError, asyncio.CancelledError)):
+            if core.exc_site(u) is None:
+                # raised by the simulator's own callbacks, not by kio: never a verdict
+                raise core.HarnessError(f"exception inside the simulated network: {type(u).__name__}: {u}")
             res.flag(f"L2:unhandled-in-loop:{type(u).__name__}")
     for k, v in net.stats.items():
         res.stats["net_" + k] += v
